@@ -1,6 +1,8 @@
 from vlib import runner, sysprops
 
-PARTIAL = []
+PARTIAL = [
+    'not-late clause (a call is failed by the first dispatch poll at or after its timer tick): monitor + exact correspondence only; the Lean statement C05_monitor_full_Statement needs completeness of the timer-wheel emulation (in progress: Props/C05DelayQ.lean)',
+]
 
 
 def run(tier, seed, replay):
